@@ -2,6 +2,9 @@ import PoseVerif.Model.Select
 import PoseVerif.Model.Helpers
 import PoseVerif.Proofs.PoseOps
 import PoseVerif.Proofs.C19Lemmas
+import PoseVerif.Model.PoseSeq
+import PoseVerif.Proofs.BodyRect
+import PoseVerif.Proofs.BodyOps
 /-!
 # C11 — selecting, removing or hiding points by name affects exactly those points
 
@@ -250,5 +253,75 @@ example : (hidePoints C19.natSc [1] hbody).data = [[[[1, 2], [0, 0]]]] ∧ (hide
 example : (correctWrist (· == 0) 1 0 hbody).data = [[[[3, 4], [3, 4]]]] ∧ (correctWrist (· == 0) 1 0 hbody).conf = [[[9, 9]]] := by decide
 example : (correctWrist (· == 0) 1 0 { hbody with conf := [[[7, 0]]] }).data = hbody.data := by decide
 end helpers
+
+/-! ### selection, end to end: the values of the selected points -/
+
+section values
+variable {S : Type}
+theorem getD2_map_pick {α : Type} [Inhabited α] (ixs : List Nat) (a : List (List (List α))) (f q : Nat) (hf : f < a.length) (hq : q < (a.getD f []).length) :
+    ((a.map (List.map (pickD ixs))).getD f []).getD q [] = pickD ixs ((a.getD f []).getD q []) := by
+  simp only [List.getD_eq_getElem?_getD, List.getElem?_map, List.getElem?_eq_getElem hf, Option.map_some, Option.getD_some] at hq ⊢
+  simp only [List.getElem?_map, List.getElem?_eq_getElem hq, Option.map_some, Option.getD_some]
+
+theorem pickD_getD {α : Type} [Inhabited α] (ixs : List Nat) (l : List α) (i : Nat) (hi : i < ixs.length) : (pickD ixs l).getD i default = l.getD (ixs.getD i 0) default := by
+  simp [pickD, List.getD_eq_getElem?_getD, List.getElem?_eq_getElem hi]
+
+/-- **the body gather**: point `i` of `get_points(ixs)` carries, in every frame and person, the coordinates, confidence and missing flags of source point `ixs[i]` -/
+theorem getPoints_cell [Inhabited S] (be : Backend) {isZero : S → Bool} {F P N D : Nat} {b r : PBody S} (h : BInv isZero F P N D b) (hF : 0 < F) (hP : 0 < P)
+    (ixs : List Nat) (hr : getPoints be isZero ixs b = some r) (f q i : Nat) (hf : f < F) (hq : q < P) (hi : i < ixs.length) :
+    dataAt r f q i = dataAt b f q (ixs.getD i 0) ∧ confAt r f q i = confAt b f q (ixs.getD i 0) ∧ missAt r f q i = missAt b f q (ixs.getD i 0) := by
+  rw [h.eq_mkC, getPoints_spec _ _ _ _ _ _ h.sameShape] at hr
+  split at hr
+  · simp only [Option.some.injEq] at hr
+    subst hr
+    have hdl : b.data.length = F := h.data.1
+    have hcl : b.conf.length = F := h.conf.1
+    have hdq : ((b.data.getD f []).length) = P := (h.data.getD f [] hf).1
+    have hcq : ((b.conf.getD f []).length) = P := (h.conf.getD f [] hf).1
+    have hml : b.missing.length = F := by rw [h.consistent, deriveMissing_eq, List.length_zipWith, hdl, hcl, Nat.min_self]
+    refine ⟨?_, ?_, ?_⟩
+    · unfold dataAt
+      simp only [mkC_data]
+      rw [getD2_map_pick ixs b.data f q (by omega) (by omega)]
+      exact pickD_getD ixs _ i hi
+    · unfold confAt
+      simp only [mkC_conf]
+      rw [getD2_map_pick ixs b.conf f q (by omega) (by omega)]
+      exact pickD_getD ixs _ i hi
+    · unfold missAt
+      simp only [mkC_missing]
+      rw [C08.derive_getPoints isZero b.data b.conf h.sameShape ixs, ← h.consistent]
+      have hmq : ((b.missing.getD f []).length) = P := by
+        rw [h.consistent, deriveMissing_eq]
+        have := getD_zipWith' (List.zipWith (List.zipWith (kpt isZero))) b.data b.conf (by omega) f [] []
+        simp only [List.zipWith_nil_left] at this
+        rw [this, List.length_zipWith, hdq, hcq, Nat.min_self]
+      rw [getD2_map_pick ixs b.missing f q (by omega) (by omega)]
+      exact pickD_getD ixs _ i hi
+  · cases hr
+
+/-- **selection, end to end**: after `get_components(request, points)` the new header is the one `getComponents` computes, with its list `ixs` of source indexes (characterised
+    name by name by `select_component`), and point `i` of the new body carries for every frame and person the coordinates, confidence and missing flags of source point `ixs[i]` -/
+theorem getComponents_values [Inhabited S] (sc : Scalar S) {isZero : S → Bool} {F P N D : Nat} (p p' : PPose S) (hinv : BInv isZero F P N D p.body) (hF : 0 < F) (hP : 0 < P)
+    (req : List String) (pts : Option (List (String × List String))) (happ : (POp.getComponents req pts).apply sc isZero p = some p') :
+    ∃ ixs, getComponents p.comps req pts = some (p'.comps, ixs) ∧ ∀ f q i, f < F → q < P → i < ixs.length →
+      dataAt p'.body f q i = dataAt p.body f q (ixs.getD i 0) ∧ confAt p'.body f q i = confAt p.body f q (ixs.getD i 0) ∧ missAt p'.body f q i = missAt p.body f q (ixs.getD i 0) := by
+  simp only [POp.apply, Option.bind_eq_bind, Option.bind_eq_some_iff] at happ
+  obtain ⟨⟨comps', ixs⟩, hg, body', hb, hp'⟩ := happ
+  simp only [Option.pure_def, Option.some.injEq] at hp'
+  subst hp'
+  exact ⟨ixs, hg, fun f q i hf hq hi => getPoints_cell .numpy hinv hF hP ixs hb f q i hf hq hi⟩
+
+/-- the same for `remove_components` (which, by `remove_eq_select_complement` / `remove_points_eq_select`, is the selection of the complement) -/
+theorem removeComponents_values [Inhabited S] (sc : Scalar S) {isZero : S → Bool} {F P N D : Nat} (p p' : PPose S) (hinv : BInv isZero F P N D p.body) (hF : 0 < F) (hP : 0 < P)
+    (rm : List String) (pts : Option (List (String × List String))) (happ : (POp.removeComponents rm pts).apply sc isZero p = some p') :
+    ∃ ixs, removeComponents p.comps rm pts = some (p'.comps, ixs) ∧ ∀ f q i, f < F → q < P → i < ixs.length →
+      dataAt p'.body f q i = dataAt p.body f q (ixs.getD i 0) ∧ confAt p'.body f q i = confAt p.body f q (ixs.getD i 0) ∧ missAt p'.body f q i = missAt p.body f q (ixs.getD i 0) := by
+  simp only [POp.apply, Option.bind_eq_bind, Option.bind_eq_some_iff] at happ
+  obtain ⟨⟨comps', ixs⟩, hg, body', hb, hp'⟩ := happ
+  simp only [Option.pure_def, Option.some.injEq] at hp'
+  subst hp'
+  exact ⟨ixs, hg, fun f q i hf hq hi => getPoints_cell .numpy hinv hF hP ixs hb f q i hf hq hi⟩
+end values
 
 end PoseVerif.Props.C11
